@@ -92,7 +92,7 @@ def replay(exe, kind, ops, timeout=120):
 def crash_key(optab, ops, phase, san):
     cls, fn = san
     if cls == 'signal14':
-        cls, fn = 'hang', 'no-return-within-20s'       # the explorer arms alarm(20) around every transition
+        cls, fn = 'hang', 'no-return-within-6s'       # the explorer arms alarm(6) around every transition
     if phase == 'destruction':
         where = 'destruction'
     else:
